@@ -134,6 +134,55 @@ def sdf_cycle(models, version):
     return None
 
 
+def rename_contract(edit):
+    """records read from a file, then renamed / edited, are written with the new names and headers"""
+    f = mol.SDFile()
+    for name, el in (("water", ["O"]), ("hydroxide", ["O", "H"]), ("third", ["C"])):
+        rec = mol.SDRecord(header=mol.Header(mol_name=name, comments="c-" + name))
+        rec.set_structure(molecule(el, [0] * len(el), [(0, 1, BT.SINGLE)] if len(el) == 2 else []))
+        f[name] = rec
+    s = io.StringIO()
+    f.write(s)
+    g = mol.SDFile.read(io.StringIO(s.getvalue()))
+    h = mol.SDFile()
+    exp_names, exp_comments = [], []
+    for name in g.keys():
+        rec = g[name]
+        if edit == "rename":
+            h["LIG_" + name] = rec
+            exp_names.append("LIG_" + name)
+            exp_comments.append("c-" + name)
+        elif edit == "edit header":
+            rec.header.comments = "edited " + name
+            h[name] = rec
+            exp_names.append(name)
+            exp_comments.append("edited " + name)
+        else:
+            hd = rec.header
+            hd.mol_name = "X_" + name
+            h["X_" + name] = rec
+            exp_names.append("X_" + name)
+            exp_comments.append("c-" + name)
+    s2 = io.StringIO()
+    h.write(s2)
+    k = mol.SDFile.read(io.StringIO(s2.getvalue()))
+    if list(k.keys()) != exp_names:
+        return f"records written as {exp_names} read back as {list(k.keys())}"
+    got = [k[n].header.comments for n in k.keys()]
+    if got != exp_comments:
+        return f"header comments {got} != {exp_comments}"
+    if [k[n].header.mol_name for n in k.keys()] != exp_names:
+        return "header names differ from the record names"
+    if [k[n].get_structure().array_length() for n in k.keys()] != [1, 2, 1]:
+        return "molecules changed"
+    return None
+
+
+for edit in ("rename", "edit header", "rename through the header object"):
+    R.check("SDF records: models become conformers and return; header/metadata/record order survive", f"parsed records, {edit}", {"edit": edit},
+            lambda edit=edit: rename_contract(edit))
+
+
 def key_contract(kw):
     """every metadata key - all combinations of its parts incl. the values 0 and '' - survives serialize/deserialize"""
     K = mol.Metadata.Key
